@@ -16,7 +16,7 @@ import (
 func init() {
 	register(&Prop{
 		ID:          "C11",
-		Explanation: "Decides the structure of sign-out: SignOut issues its success redirect only on paths where ClearSessionCookie returned nil; Manager.Clear emits the ticket-cookie deletion on every path, returns nil for an undecodable ticket only when the error is http.ErrNoCookie, and otherwise returns clearSession's result, which is the Store.Clear error passed up unchanged through the closure, the redis store (non-nil whenever Client.Del's error is non-nil) and the client wrappers; the cookie store's Clear ranges over every cookie of the request and, for each whose name matches a pattern compiled from regexp.QuoteMeta(Cookie.Name) plus an optional _<digits> suffix (a constant accepted/rejected on a fixed probe set, agreeing with splitCookieName's format), sets a deletion cookie under the presented name; setters and deleters of ticket, CSRF and session cookies use the same name expression and the same options object. Added during the build: a request that waited for the refresh lock writes the session back only after a successful reload under the lock, so a signed-out session is not re-created (R5, shared with C12.R2). Round 3: the cookie-domain list setters and deleters choose from is sorted once and never reordered (R6); a save over a decodable request ticket reuses it, so a re-login leaves no orphan (R7).",
+		Explanation: "Decides the structure of sign-out: SignOut issues its success redirect only on paths where ClearSessionCookie returned nil; Manager.Clear emits the ticket-cookie deletion on every path, returns nil for an undecodable ticket only when the error is http.ErrNoCookie, and otherwise returns clearSession's result, which is the Store.Clear error passed up unchanged through the closure, the redis store (non-nil whenever Client.Del's error is non-nil) and the client wrappers; the cookie store's Clear ranges over every cookie of the request and, for each whose name matches a pattern compiled from regexp.QuoteMeta(Cookie.Name) plus an optional _<digits> suffix (a constant accepted/rejected on a fixed probe set, agreeing with splitCookieName's format), sets a deletion cookie under the presented name; setters and deleters of ticket, CSRF and session cookies use the same name expression and the same options object. Added during the build: a request that waited for the refresh lock writes the session back only after a successful reload under the lock, so a signed-out session is not re-created (R5, shared with C12.R2). Round 3: the cookie-domain list setters and deleters choose from is sorted once and never reordered (R6); a save over a decodable request ticket reuses it, so a re-login leaves no orphan (R7). Round 4: the cookie ticket.clearCookie emits carries an empty value and a negative constant lifetime, not one derived from configuration (under R2).",
 		NotDecided:  "replay histories against a live store; truncated split names for 251-256 byte cookie names (arithmetic); what a browser does with the deletions.",
 		Run:         runC11,
 	})
@@ -45,7 +45,10 @@ func runC11R3R4(c *Ctx, r3, r4 string) {
 	rule := r3
 	cclear := c.Fn(rule, "(*pkg/sessions/cookie.SessionStore).Clear")
 	setCookie := c.StdFunc(rule, "net/http.SetCookie")
-	makeCookie := c.Fn(rule, "(*pkg/sessions/cookie.SessionStore).makeCookie")
+	// the store's makeCookie wrapper is not an anchor: the walker inlines it where it exists, and the rule
+	// looks at the MakeCookieFromOptions call either way
+	makeCookie := c.Fn(rule, "pkg/cookies.MakeCookieFromOptions")
+	wrapper := c.P.Func("(*pkg/sessions/cookie.SessionStore).makeCookie")
 	nameOptF := c.Field(rule, "pkg/apis/options.Cookie.Name")
 	cookieNameF := c.P.Field("net/http.Cookie.Name")
 	splitName := c.Fn(rule, "pkg/sessions/cookie.splitCookieName")
@@ -112,8 +115,8 @@ func runC11R3R4(c *Ctx, r3, r4 string) {
 						if !ok || mk.C.StaticCallee() != makeCookie {
 							continue
 						}
-						nameOK := elementOfCookies(p, p.Arg(mk, 2), cookieNameF) == elem
-						val, _ := ConstString(p.Resolve(p.Arg(mk, 3)).V)
+						nameOK := elementOfCookies(p, p.Arg(mk, 1), cookieNameF) == elem
+						val, _ := ConstString(p.Resolve(p.Arg(mk, 2)).V)
 						exp, expOK := ConstInt(p.Resolve(p.Arg(mk, 4)).V)
 						if nameOK && val == "" && expOK && exp < 0 {
 							found = true
@@ -247,9 +250,11 @@ func runC11R3R4(c *Ctx, r3, r4 string) {
 		// the session cookie is set under Cookie.Name, which the clearing pattern is built from
 		if makeCookie != nil && nameOptF != nil {
 			okName := false
-			for _, cs := range c.callersOf(makeCookie) {
-				if isFieldLoadOf(cs.Common().Args[2], nameOptF) {
-					okName = true
+			if wrapper != nil {
+				for _, cs := range c.callersOf(wrapper) {
+					if isFieldLoadOf(cs.Common().Args[2], nameOptF) {
+						okName = true
+					}
 				}
 			}
 			for _, st := range families["pkg/sessions/cookie.SessionStore"] {
@@ -433,6 +438,41 @@ func runManagerClearRule(c *Ctx, rule string) {
 				c.bad(rule, key, p.Exit, "undecodable ticket: result is neither nil-for-no-cookie nor a definite error", p, at)
 			}
 		})
+		// the cookie clearCookie emits IS a deletion: empty value and a negative constant lifetime. A lifetime computed
+		// from configuration (e.g. -Cookie.Expire) is zero for cookie-expire=0, which emits no Max-Age at all: the
+		// browser keeps the cookie
+		if httpSet, mkOpt := c.StdFunc(rule, "net/http.SetCookie"), c.Fn(rule, "pkg/cookies.MakeCookieFromOptions"); httpSet != nil && mkOpt != nil {
+			key := "deletion-lifetime|" + fnKey(clearCookie)
+			n, bad := 0, false
+			c.Walk(rule, clearCookie, func(p *walk.Path) {
+				for _, sc := range p.Find(walk.Static(httpSet), p.End()) {
+					n++
+					mc, ok := extractOfCall(p, p.Arg(sc, 1), 0)
+					var val, exp walk.DV
+					switch {
+					case ok && mc.C.StaticCallee() == mkOpt:
+						val, exp = p.Arg(mc, 2), p.Arg(mc, 4)
+					case ok && mc.C.StaticCallee() != nil && mc.C.StaticCallee().Name() == "makeCookie" && len(mc.C.Args) >= 4:
+						val, exp = p.Arg(mc, 2), p.Arg(mc, 3)
+					default:
+						bad = true
+						c.bad(rule, key, sc.In, "the ticket-cookie deletion is not built by MakeCookieFromOptions", p, sc.Idx)
+						continue
+					}
+					v, isConst := ConstString(p.Resolve(val).V)
+					d, isDur := ConstInt(p.Resolve(exp).V)
+					if !(isConst && v == "" && isDur && d < 0) {
+						bad = true
+						c.bad(rule, key, sc.In, "the ticket-cookie deletion does not carry an empty value and a negative constant lifetime: with a lifetime derived from configuration (cookie-expire=0 gives 0) no Max-Age is sent and the browser keeps the cookie", p, sc.Idx)
+					}
+				}
+			})
+			if n == 0 {
+				c.R.Bad(rule, key, c.P.Pos(clearCookie.Pos()), "ticket.clearCookie sets no cookie", nil, nil)
+			} else if !bad {
+				c.R.OK(rule, key, c.P.Pos(clearCookie.Pos()), "SetCookie(MakeCookieFromOptions(req, name, \"\", opts, negative constant))")
+			}
+		}
 		// clearSession returns clearer(t.id)
 		c.Walk(rule, clearSession, func(p *walk.Path) {
 			ret, ok := p.ReturnDV(0)
